@@ -12,6 +12,8 @@ import EaselModel.Dsqdata.OpenRejects
 import EaselModel.Dsqdata.SmemLemmas
 import EaselModel.Dsqdata.PackMem
 import EaselModel.Pipeline.Locks
+import EaselModel.Pipeline.Fatal
+import EaselModel.Dsqdata.ShortRead
 /-! # C12 — property theorems (statements + glue only; lemmas live in WorkQueue/*.lean, Dsqdata/*.lean)
 
 Work queue (`esl_workqueue.c`): every theorem is about *all* states reachable from `esl_workqueue_Create(size)` by
@@ -724,6 +726,73 @@ example : ∃ s, Pipeline.run (Pipeline.Sys.create 2 3 2)
     [.loader, .loader, .loader, .unpacker 0, .loader, .loader, .loader, .unpacker 1, .unpacker 0, .read 7, .unpacker 1, .read 8, .recycle 7 0 0, .loader, .loader]
       = some s ∧ s.owners 0 = [.recycling] ∧ s.owners 1 = [.consumer 8] ∧ s.owners 2 = [.loader] ∧ s.owners 3 = [] := by
   refine ⟨_, rfl, ?_, ?_, ?_, ?_⟩ <;> decide
+
+/-! ### a database whose `.dsqs` / `.dsqm` was cut short behind the header: the loader's fatal branch
+
+`Pipeline.FReachable U T C F x`: the pipeline on a database whose index announces `T` chunks while the data of chunk number `F` is
+missing (`F ≥ T`: nothing is missing): any interleaving as before, except that the loader's `fread` of chunk `F` comes back short →
+`ESL_XEXCEPTION` → `esl_fatal` → `exit(1)` (`x.aborted`: the process, with every unpacker and consumer in it, has ended). -/
+
+/-- **Up to the fatal error the pipeline behaves as on the intact database**: its state is a state the intact pipeline reaches, so
+    order / exactly-once, lane discipline, ownership exclusivity, lock discipline and buffer conservation (all theorems above) hold
+    in every state before - and at - the moment the process ends. -/
+theorem pipe_cut_safety {U T C F : Nat} {x : Pipeline.FSys} (h : Pipeline.FReachable U T C F x) :
+    Pipeline.Reachable U T C x.s ∧ x.failAt = F :=
+  Pipeline.freachable_base h
+
+/-- **A cut database is never passed off as a complete one.** With the data of chunk `F < T` missing, under every schedule: what
+    `esl_dsqdata_Read` has handed out is chunks `0 … nchunk-1` in order with `nchunk ≤ F` (only chunks that were read completely),
+    no consumer is ever told `eslEOF`, and the loader never reaches its clean-exit path. -/
+theorem pipe_cut_never_eof {U T C F : Nat} (hU : 0 < U) (hF : F < T) {x : Pipeline.FSys} (h : Pipeline.FReachable U T C F x) :
+    x.s.returned = List.range x.s.nchunk ∧ x.s.nchunk ≤ F ∧ x.s.eofs = [] ∧ x.s.lpc ≠ .done := by
+  obtain ⟨hb, hf⟩ := Pipeline.freachable_base h
+  have i := Pipeline.reachable_inv hU hb
+  have j := Pipeline.freachable_cutInv hF h
+  rw [hf] at j
+  have hn : x.s.nchunk ≤ F := Nat.le_trans i.bounds.1 j.nl
+  refine ⟨i.ret, hn, ?_, ?_⟩
+  · apply Classical.byContradiction
+    intro he
+    have := i.eof he
+    have hT := Pipeline.reachable_T hb
+    omega
+  · intro hd
+    have := j.past
+    rw [hd] at this
+    simp [Pipeline.LPc.past] at this
+
+/-- **No consumer is left waiting for ever (no deadlock), also on a cut database.** In every state reached, either the process has
+    ended with the loader's fatal error, or some thread can take a step that is not a wait - exactly as in `pipe_no_deadlock` - and a
+    step is enabled in the cut pipeline exactly when it is in the intact one (the abort takes the place of the loader's `fread` step,
+    which is never a wait). So a consumer blocked in `esl_dsqdata_Read` always gets an answer: a chunk, `eslEOF`, or the end of
+    the process by `esl_fatal`. -/
+theorem pipe_cut_no_deadlock {U T C F : Nat} (hU : 0 < U) {x : Pipeline.FSys} (h : Pipeline.FReachable U T C F x) :
+    x.aborted = true ∨
+      ((Pipeline.loaderBlocked x.s = false ∨ (∃ u < x.s.U, Pipeline.unpBlocked x.s u = false) ∨ x.s.cheld ≠ [] ∨
+          Pipeline.readBlocked x.s = false) ∧
+       ∀ l, (Pipeline.fstep x l).isSome = (Pipeline.step x.s l).isSome) := by
+  cases ha : x.aborted with
+  | true => exact Or.inl rfl
+  | false => exact Or.inr ⟨pipe_no_deadlock hU (Pipeline.freachable_base h).1, fun l => Pipeline.fstep_isSome x l ha⟩
+
+/-- after the abort nobody moves: `exit(1)` has ended every thread -/
+theorem pipe_cut_abort_final (x : Pipeline.FSys) (ha : x.aborted = true) (l : Pipeline.Label) : Pipeline.fstep x l = none := by
+  simp [Pipeline.fstep, ha]
+
+/-- non-vacuity: 3 chunks announced, the data of chunk 1 missing, 2 unpackers: chunk 0 is delivered, then the loader's `fread` of
+    chunk 1 ends the process; nobody was told EOF. -/
+example : ∃ x, Pipeline.frun ⟨Pipeline.Sys.create 2 3 2, 1, false⟩
+    [.loader, .loader, .loader, .unpacker 0, .unpacker 0, .read 7, .loader, .loader] = some x ∧
+      x.aborted = true ∧ x.s.returned = [0] ∧ x.s.eofs = [] := by
+  refine ⟨_, rfl, ?_, ?_, ?_⟩ <;> decide
+
+/-- the byte-level loader with its outcomes kept apart (`loaderIterX`, `loaderRunX`) is the loader of `read_written_database`:
+    `loaderChunksB` answers exactly when the run ends with end of data, with the same chunks; a short `fread` of packets or
+    metadata is the fatal outcome, never a chunk and never end of data. -/
+theorem dsq_loader_outcomes (maxseq : Nat) (maxpacket : Int) (fuel : Nat) (st : Dsqdata.BState) :
+    Dsqdata.loaderChunksB maxseq maxpacket fuel st =
+      if (Dsqdata.loaderRunX maxseq maxpacket fuel st).2 = .eof then some (Dsqdata.loaderRunX maxseq maxpacket fuel st).1 else none :=
+  Dsqdata.loaderRunX_B maxseq maxpacket fuel st
 end pipeline
 
 end EaselModel.Props.C12
